@@ -364,3 +364,66 @@ class ReleaseCallTask(Task):
              names == ["checkpoint.clear", "negotiate_release", "checkpoint.set"], detail=repr(names))
         I.ob(f"{P}/every-wait-for-the-reactor-is-a-bounded-sleep", all(isinstance(e.args[0], (int, float)) and 0 < e.args[0] <= 1
                                                                      for e in I.trace if e.name == "sleep"))
+
+
+KILL = f"{ASSOC}:Association.kill"
+
+
+class KillTask(Task):
+    """Association.kill on its real body: the reactor is let go and told to stop (`_kill`), the association is marked not
+    established, and the provider is asked to stop until it has stopped or is no longer alive - polling with bounded sleeps; the
+    call returns only then (so 'killed' implies the provider thread is gone or going)."""
+    name = "Association.kill"
+    functions = [KILL]
+    shard = False
+
+    def __init__(self, prefix="C08/"):
+        self.prefix = prefix
+
+    def config(self, repo):
+        import ast
+        from pyvc.interp import LoopSpec
+        c = Config()
+        c.ob_prefix = self.prefix
+        fi = repo.func(KILL)
+        loops = [n for n in ast.walk(fi.node) if isinstance(n, (ast.For, ast.While))]
+        task = self
+
+        class _L(LoopSpec):
+            def havoc(self, I, fr):
+                I.ghost["loop_mark"] = len(I.trace)
+        for i in range(len(loops)):
+            c.loop_specs[(KILL, i)] = _L()
+        c.ext_models["time.sleep"] = lambda I, a, k: I.trace.append(Ev("sleep", (a[0],)))
+
+        def env_call(I, env, method, args, kw):
+            p = env.path
+            if p == "assoc._reactor_checkpoint" and method == "set":
+                I.trace.append(Ev("checkpoint.set"))
+                return None
+            if p == "assoc.dul" and method in ("is_alive", "stop_dul"):
+                v = I.choose(2, method) == 1
+                I.trace.append(Ev(method, (v,)))
+                return v
+            return NotImplemented
+        c.env_call = env_call
+        return c
+
+    def body(self, I):
+        P = f"{self.prefix}{KILL}"
+        me = Env("assoc", cls=I.repo.cls(f"{ASSOC}:Association"))
+        me.attrs.update(_reactor_checkpoint=Env("assoc._reactor_checkpoint"), dul=Env("assoc.dul"))
+        kind, val = I.run_function(I.repo.func(KILL), [me])
+        I.ob(f"{P}/no-exception", kind == "return", detail=f"{kind}:{val!r}")
+        if kind != "return":
+            return
+        flags = {e.args[1]: e.args[2] for e in I.trace if e.name == "setattr" and e.args[0] == "assoc"}
+        I.ob(f"{P}/the-reactor-is-let-go-and-told-to-stop-and-the-association-is-not-established",
+             flags.get("_kill") is True and flags.get("is_established") is False and any(e.name == "checkpoint.set" for e in I.trace), detail=repr(flags))
+        tail = I.trace[I.ghost.get("loop_mark", 0):]
+        last = [e for e in tail if e.name in ("is_alive", "stop_dul")]
+        I.ob(f"{P}/returns-only-when-the-provider-is-not-alive-or-has-accepted-the-stop",
+             bool(last) and ((last[-1].name == "is_alive" and last[-1].args[0] is False) or (last[-1].name == "stop_dul" and last[-1].args[0] is True)),
+             detail=repr([(e.name, e.args) for e in last]))
+        I.ob(f"{P}/every-wait-for-the-provider-is-a-bounded-sleep", all(isinstance(e.args[0], (int, float)) and 0 < e.args[0] <= 1
+                                                                      for e in I.trace if e.name == "sleep"))
